@@ -203,6 +203,21 @@ CHECKS = {
         "(sanitizers, alarm) on generated inputs, not proved; one recorded finding: recursion depth is proportional to nesting depth.",
    technique="TLA+ state machine of the tag scanner checked by TLC + trace validation of hook-recorded scanner states; sanitizer-sensed rendering of generated malformed texts",
    design="6 (C01), appendix E.6"),
+ "C17": dict(
+   text="Renders through one shared parsed tag array are specified as interleaved steps (QRender: one step = one expanded tag, reads what "
+        "is shared, appends to its own stream); TLC explores every interleaving of 2 renders x 4 steps and 3 x 3 steps (thorough: 2x6, 3x4) "
+        "with PureShared / AppendOnly / OneWriter (action properties) and SoloEqual / Sound (invariants); the impure designs named by the "
+        "property (static scratch buffer, patched tag record, static loop context) are variants of the same spec and are rejected. Every "
+        "path of the TLC state graph is a schedule that is forced on real threads through hook H3 (yield point before every tag) for "
+        "generated templates of every tag kind through one shared tag array and a shared value object; after every step, with all threads "
+        "parked, every field of every tag record, the Stringify of the values and the template bytes are compared with their snapshot. TLC "
+        "(TraceQRender) replays the recorded steps: shared state unchanged, only the running render's stream grew, every stream a prefix of "
+        "and finally equal to the solo render; the same trace spec validates cache-reuse histories (one cache, six renders, two values, "
+        "fresh and growing streams). Free-running threads (8) run under ThreadSanitizer.",
+   note="schedules are exhaustive at the granularity of K steps per render (which yield points separate the steps is sampled per schedule); "
+        "races inside a step are left to TSan on free-running threads; templates are sampled.",
+   technique="TLA+ interleaving specification; every TLC-generated schedule forced on real threads via a yield hook; trace validation of recorded steps; TSan",
+   design="6 (C17), appendix E.7"),
 }
 PENDING = "not yet claimed in this revision: its specification and conformance harness are still being built (DESIGN.md section 6 describes the plan)"
 m = {
